@@ -3,16 +3,20 @@
 LOCK_COMPONENTS = {
     'real': ['dawgie.db.shelve.comms.Worker (do, _do_acquire, _do_release, connectionLost, _lock_db, _unlock_db)',
              'dawgie.db.shelve.comms.DBSerializer', 'dawgie.db.shelve.comms.acquire / release / Connector (client side, controlled threads)',
+             'dawgie.db.shelve.comms.Worker._delay_copy / _do_copy (Func.dbcopy, Method.connector) in a pool thread of the simulated reactor: '
+             'loop-back acquire/release over the simulated TCP, DBI close/open/copy',
              'dawgie.pl.message.receive', 'dawgie.context.lock_db / unlock_db / db_lock', 'dawgie.db.lockview.TaskLockEngine',
              'dawgie.db.shelve.state.DBI on dbm.dumb (open throughout)', 'twisted LoopingCall / DelayedCall / Protocol / Factory'],
     'stub': ['reactor (sim.core.SimReactor)', 'TCP (sim.core.SimConn: chunking, delay, coalescing, reset, end of stream)',
              'dawgie.security.connect -> worlds.lock.LockSocket (sim.core.SimSocket + protocol points)',
              'TLS (in-memory transport, security._myself stub certificate)', 'clock (sim.boot.SimDateTime)',
-             'client processes = controlled threads; a dead process = a thread never released again'],
+             'client processes = controlled threads; a dead process = a thread never released again',
+             'dawgie.db.shelve.util.make_staging_dir (os.system mkdir) done in-process'],
 }
 
 LOCK_RULE = ('one run = one generated scenario (1-6 clients x 1-3 rounds of acquire/hold/release with start phases, hold times, optional '
-             'table read while holding, optional release without acquire; plain or chunked/delayed network) executed repeatedly inside the run: '
+             'table read while holding, optional release without acquire, optional database copy = the server itself takes the lock through a '
+             'loop-back connection; plain or chunked/delayed network) executed repeatedly inside the run: '
              'fault-free batch = 3 interleavings; enumeration batch = 1 fault-free pass + one execution per (client, protocol point, '
              'mode in {reset, fin}, capped at 70 per run) with the disconnect injected exactly there + 3 executions with random timed/multiple disconnects; '
              'non-trivial = some acquire reached the server while the lock was held (contention), at least one scheduler reordering and, '
@@ -46,7 +50,9 @@ PROPS = {
                 'enumerated_positions', 'random_executions', 'disconnect_of_waiter', 'disconnect_of_holder',
                 'disconnect_while_granted_unreported', 'disconnect_of_acquire_in_flight', 'disconnect_of_connected_nothing_sent',
                 'grant_to_client_that_already_died_unnoticed', 'holder_connection_lost', 'waiter_connection_lost',
-                'client_spinning_on_eof', 'final_state_checked'],
+                'client_spinning_on_eof', 'final_state_checked',
+                'copy_round', 'copy_answered', 'copy_took_lock', 'copy_took_lock_after_waiting', 'copy_took_lock_while_others_wait',
+                'waiter_told_after_copy', 'disconnect_of_copy_client'],
         batches=[
             # the heavy batch first: chunks are queued in batch order and the wall budget cuts the tail; every run of
             # the enumeration batch starts with a fault-free execution, so fault-free behaviour is covered either way
